@@ -1,7 +1,7 @@
 (* C08, part "error funnel": hand model of the exception -> alert / shutdown funnel of
    tlslite-ng.  Definitions only (lemmas: Proofs/C08_Funnel.v).
 
-   Code modelled (line numbers of /repo/tlslite at /repo HEAD 0a4bdcb):
+   Code modelled (line numbers of /repo/tlslite at /repo HEAD 79180d8):
      errors.py 12-285, utils/codec.py 14-21   exception class hierarchy      -> bases / subclass
      tlsrecordlayer.py 938-947   _shutdown                                    -> shutdown
      tlsrecordlayer.py 950-959   _sendError                                   -> sendError
@@ -13,9 +13,10 @@
      tlsrecordlayer.py 516-565   closeAsync / _decrefAsync                    -> close_handler / close_peer_alert
      tlsrecordlayer.py 1028-1071 _sendMsgThroughSocket, failed handshake send -> DRecOnly, AShutRaiseRemote,
                                                                                  AShutRaiseSock
-     tlsconnection.py 5173-5211  _handshakeWrapperAsync (with the clauses added by 6da5459:
+     tlsconnection.py 5218-5261  _handshakeWrapperAsync (with the clause of 6da5459 / 0bc7834:
                                  TLSIllegalParameterException / TLSDecodeError /
-                                 TLSDecryptionFailed -> _sendError)           -> checker_step / wrapper_alert /
+                                 TLSDecryptionFailed -> _sendError, closing also when
+                                 the alert cannot be sent)           -> checker_step / wrapper_alert /
                                                                                  wrapper_handler
    Python semantics used: `except C` catches e iff issubclass(type(e), C); clauses are tried
    in textual order; an exception raised inside an except clause is not caught by the sibling
@@ -256,7 +257,7 @@ Definition checker_step (e : exc_class) (d : option Z) (sf : bool) (st : cst) : 
     else (Raised (mkr e d), emit (WAlert level_fatal close_notify) st)
   else (Raised (mkr e d), st).
 
-(* tlsconnection.py 5195-5208 (added by 6da5459): protocol errors raised directly by the
+(* tlsconnection.py 5240-5249 (added by 6da5459): protocol errors raised directly by the
    handshake code.  Note TLSDecodeError (errors.py) is not codec.DecodeError, and the alert for
    TLSDecryptionFailed is decrypt_error (51) here but decryption_failed (21) in the record
    handler. *)
@@ -266,10 +267,19 @@ Definition wrapper_alert (e : exc_class) : option Z :=
   else if subclass e E_TLSDecryptionFailed then Some decrypt_error
   else None.
 
-(* tlsconnection.py 5186-5211.  The _sendError of the three new clauses runs inside an except
-   clause: what it raises (TLSLocalAlert, or socket.error when the alert cannot be sent) leaves
-   the wrapper directly -- neither the `except TLSAlert` fault logic nor the bare `except:`
-   (_shutdown) of the same try applies to it. *)
+(* tlsconnection.py 5250-5258 (0bc7834): the wrapper's own _sendError runs in an inner
+   try: TLSLocalAlert is re-raised as is; anything else (the alert could not be sent) ->
+   _shutdown(False), then re-raised. *)
+Definition wrapper_own_alert (d : Z) (sf : bool) (st : cst) : outcome * cst :=
+  match sendError d sf st with
+  | (Raised r', st1) =>
+      if subclass (rclass r') E_TLSLocalAlert then (Raised r', st1)
+      else (Raised r', shutdown false st1)
+  | x => x
+  end.
+
+(* tlsconnection.py 5231-5261.  The clause for the three protocol-error classes is a sibling of
+   `except TLSAlert`: the TLSLocalAlert it raises is not subject to the fault logic. *)
 Definition wrapper_handler (sf : bool) (r : raised) (st : cst) : outcome * cst :=
   let c := rclass r in
   if subclass c E_GeneratorExit then (Raised r, st)
@@ -284,7 +294,7 @@ Definition wrapper_handler (sf : bool) (r : raised) (st : cst) : outcome * cst :
         end
     end
   else match wrapper_alert c with
-       | Some d => sendError d sf st
+       | Some d => wrapper_own_alert d sf st
        | None => (Raised r, shutdown false st)
        end.
 
@@ -327,7 +337,7 @@ Inductive action :=
 | ASendError (d : Z)               (* the code at that depth calls _sendError(d) *)
 | APeerAlert (level descr : Z)     (* the peer's alert record is processed by _getMsg / _decrefAsync *)
 | AShutRaiseRemote (d : Z)         (* self._shutdown(False); raise TLSRemoteAlert
-                                      [tlsconnection.py 4829-4830, tlsrecordlayer.py 1057-1063] *)
+                                      [tlsconnection.py 4867-4868, tlsrecordlayer.py 1057-1063] *)
 | AShutRaiseSock.                  (* self._shutdown(False); raise sock_err: a handshake record
                                       could not be sent and the pending record is not an alert
                                       [tlsrecordlayer.py 1057-1066, since 0ab9df1] *)
@@ -480,17 +490,6 @@ Definition wf_event (ly : layer) (dp : depth) (a : action) : bool :=
   | ARaise e _ => negb (escapes_handlers ly e)
                 && negb (layer_eqb ly LHandshake && subclass e E_TLSAlert)
   | _ => true
-  end.
-(* the alert of one of the wrapper's new clauses cannot be sent: socket.error leaves the
-   wrapper from inside an except clause, nothing is shut down *)
-Definition unsendable_wrapper_alert (ly : layer) (dp : depth) (a : action) (sf : bool) : bool :=
-  sf && layer_eqb ly LHandshake &&
-  match a with
-  | ARaise e _ => match mapped_alert dp e, wrapper_alert e with
-                  | None, Some _ => true
-                  | _, _ => false
-                  end
-  | _ => false
   end.
 Definition keeps_resumable (ly : layer) (a : action) (st : cst) : bool :=
   (layer_eqb ly LWrite && ignore_abrupt st)
